@@ -129,6 +129,16 @@ def run(check, prog):
     # a theory written for one polarisation refuses every other one (else the
     # sphere limit fails for the polarisations it lets through)
     c05.pin_exact(check, prog)
+    # "both directly and when used inside the lens wrapper", "mirrors with the
+    # geometry": the wrapper's integrands take the four amplitude-matrix entries
+    # (S3, S4 are non-zero for a tilted spheroid or cylinder) the same way with
+    # and without numexpr, and have the parity a mirrored particle needs
+    # (rules shared with C08 and C05)
+    from hpstatic.poly import Canon
+    from . import c08
+    c08.numexpr_agreement(check, prog, Canon())
+    c08.amplitude_matrix(check, prog)
+    c05.lens_rotation(check, prog, Canon(trig_expand=True))
 
 
 def stops(check, prog, root):
@@ -454,6 +464,78 @@ def size_guards(check, prog, accepted):
                     positive = True      # raised when "0 < size" fails
                 if pol is True and any(x[1] in ('<', '<=') for x in hits):
                     positive = True      # raised when "size <= 0" holds
+        # ... for each of the sizes that reach the solver: the refusal is
+        # evaluated with one size at zero (at infinity) and the others in range
+        def leaves_of(t, out):
+            cur = t
+            while cur[0] in ('attr', 'idx'):
+                cur = cur[1]
+            if cur == s_ and t != s_:
+                out.add(t)
+                return
+            for x in t[1:]:
+                if isinstance(x, tuple) and x and isinstance(x[0], str):
+                    leaves_of(x, out)
+                elif isinstance(x, tuple):
+                    for y in x:
+                        if isinstance(y, tuple) and y and isinstance(y[0], str):
+                            leaves_of(y, out)
+        leaves = set()
+        leaves_of(ret[1][0], leaves)
+        leaves_of(ret[1][5], leaves)
+        INF = (('extref', 'numpy.inf'), ('extref', 'math.inf'), ('extref', 'numpy.Inf'),
+               ('extref', 'numpy.infty'))
+
+        def atom_under(L, state):
+            def value(t):
+                if t[0] == 'call' and t[1] in ('numpy.isfinite', 'math.isfinite') \
+                        and len(t[2]) == 1:
+                    inside = [x for x in leaves if x in set(subterms(t[2][0]))]
+                    if not inside:
+                        return None
+                    return not (state == 'inf' and L in inside)
+                if t[0] != 'cmp' or t[1] not in ('<', '<=', '>', '>='):
+                    return None
+                op, a, b = t[1], t[2], t[3]
+                if op in ('>', '>='):
+                    op, a, b = {'>': '<', '>=': '<='}[op], b, a
+                # now a (<|<=) b
+                def level(x):
+                    if x == num(0):
+                        return 0
+                    if x in INF:
+                        return 3
+                    inside = [y for y in leaves if y in set(subterms(x))]
+                    if not inside:
+                        return None
+                    if L in inside:
+                        return {'zero': 0, 'inf': 3}[state]
+                    return 1           # another size, in range
+                la, lb = level(a), level(b)
+                if la is None or lb is None:
+                    return None
+                return la < lb if op == '<' else la <= lb
+            return value
+        from hpstatic.logic import cond3
+        for L in sorted(leaves, key=show):
+            for state, words in (('zero', 'zero'), ('inf', 'infinite')):
+                hit = any(cond3(o.cond, atom_under(L, state),
+                                skip=lambda t: not any(
+                                    x[0] == 'cmp' and x[1] in ('<', '<=', '>', '>=')
+                                    or (x[0] == 'call' and x[1] in (
+                                        'numpy.isfinite', 'math.isfinite'))
+                                    for x in subterms(t))) is True
+                          for o in inv)
+                check.require(hit, 'E3-size-guard',
+                              '%s hand-off, %s %s' % (cname, show(L).replace('S.', ''),
+                                                      words),
+                              'Tmatrix._parse_args raises InvalidScatterer when this '
+                              'size is %s and the others are in range' % words,
+                              prog.loc(q, prog.func(q)),
+                              fail_detail='no InvalidScatterer path is taken for %s %s '
+                              'with the other sizes positive and finite: the value '
+                              'goes into the compiled solver, which ends the '
+                              'interpreter' % (show(L).replace('S.', cname + '.'), words))
         check.require(positive, 'E3-size-guard', cname + ' hand-off',
                       'Tmatrix._parse_args raises InvalidScatterer for a size that is '
                       'not positive', prog.loc(q, prog.func(q)),
